@@ -2,6 +2,7 @@ import USimModel.Drv.Util
 import USimModel.Drv.C17
 import USimModel.Drv.C19
 import USimModel.Drv.Machine
+import USimModel.Drv.Judge
 /-!
 Line-protocol driver: one request per line on stdin, one reply per line on stdout.
 `<suite> <command> <args...>`; every suite keeps its own state.  Used by the Python harness
@@ -15,6 +16,7 @@ structure DrvState where
 
 def step (st : DrvState) (line : String) : DrvState × String :=
   if line.startsWith "mach " then (st, Mach.handle (line.drop 5).toString) else
+  if line.startsWith "judge " then (st, JudgeCmd.run (line.drop 6).toString) else
   match tokens line with
   | "c17" :: rest => let (s, out) := C17.handle st.c17 rest; ({ st with c17 := s }, out)
   | "c19" :: rest => let (s, out) := C19.handle st.c19 rest; ({ st with c19 := s }, out)
